@@ -31,16 +31,16 @@ theorem wfcB_sound (s : Store) (h : wfcB s = true) : WFc s := by
   rw [hj] at this
   exact (beq_iff_eq.1 this)
 
-/-- checks `p` on every state visited while running `ops` from `sys` -/
+/-- checks `p` on every state an operation of `ops` is applied to, running from `sys` -/
 def alongB (dt : Data) (p : Sys → Bool) : Sys → List Op → Bool
-  | sys, [] => p sys
+  | _, [] => true
   | sys, op :: ops => p sys && (match step dt sys op with
       | some sys' => alongB dt p sys' ops
       | none => true)
 
 theorem alongB_sound (dt : Data) (p : Sys → Bool) : ∀ (ops : List Op) (sys : Sys),
     alongB dt p sys ops = true → Along dt (fun sy => p sy = true) sys ops
-  | [], _, h => h
+  | [], _, _ => trivial
   | op :: ops, sys, h => by
     simp only [alongB, Bool.and_eq_true] at h
     refine ⟨h.1, fun sys' hs => ?_⟩
